@@ -170,7 +170,11 @@ Definition drecv (st : dstate) (s : list dframe) (v : dvalue) : option dstate :=
     | KText | KDecimal => match df_items f, v with [], DV (VBytes _) => Some (with_stack st (dpush v f :: r)) | _, _ => None end
     | KBool => match df_items f, v with [], DV (VInt _) => Some (with_stack st (dpush v f :: r)) | _, _ => None end
     | KNone => None
-    | KVocab => match v with DV (VInt _) | DV (VBytes _) => Some (with_stack st (dpush v f :: r)) | _ => None end
+    | KVocab => match v with
+                | DV (VInt _) => Some (with_stack st (dpush v f :: r))
+                | DV (VBytes s) => if word_ok s then Some (with_stack st (dpush v f :: r)) else None
+                | _ => None
+                end
     | KRef => match df_items f, v with
               | [], DV (VInt k) =>
                 if dlookup k s && ref_ok k st   (* Banana.getObject: the table entry is the object, or its Deferred while pending *)
